@@ -1,0 +1,12 @@
+//go:build !go1.18
+// +build !go1.18
+
+package parse
+
+import "go/ast"
+
+// hasTypeParams reports whether the function type declares type parameters,
+// which do not exist before go1.18.
+func hasTypeParams(ft *ast.FuncType) bool {
+	return false
+}
